@@ -166,7 +166,7 @@ def classify(case, impl, model):
                  % (i, op, xi, yi))
 
 
-SIG = {"hb": "dual-standby-no-promotion", "if": "ifdown-notification-count", "fc": "first-heartbeat-only-recorded"}
+SIG = {"hb": "dual-standby-no-promotion", "if": "ifdown-notification-count", "fc": "dual-active-second-heartbeat"}
 
 
 def signature(case, impl, models):
